@@ -67,10 +67,11 @@ where
         }
         if self.q_vals.len() >= self.window_len {
             let old_val = self.q_vals.pop_front().unwrap();
+            // Sums of closes up / down cannot be negative; rounding of the subtraction can make them so.
             if old_val > self.oldest_val {
-                self.cu = self.cu - (old_val - self.oldest_val);
+                self.cu = (self.cu - (old_val - self.oldest_val)).max(T::zero());
             } else {
-                self.cd = self.cd - (self.oldest_val - old_val);
+                self.cd = (self.cd - (self.oldest_val - old_val)).max(T::zero());
             }
             self.oldest_val = old_val;
         }
